@@ -171,6 +171,13 @@ func c06Monitor(tbl []c06Entry, host string, qt uint16, o c06Obs, viaCheckHost b
 			return false, "precedence", fmt.Sprintf("address %s for %q comes from a shadowed (less specific) entry", a, final)
 		}
 	}
+	if o.reason == 1 && len(o.ips) > 0 {
+		for _, e := range tbl {
+			if _, err := netip.ParseAddr(e.ans); err != nil && e.ans != "A" && e.ans != "AAAA" && c06Matches(e.dom, final) {
+				return false, "precedence", fmt.Sprintf("address entries used for %q although the CNAME entry %s -> %s covers it", final, e.dom, e.ans)
+			}
+		}
+	}
 	if !viaCheckHost {
 		return true, "", ""
 	}
@@ -199,9 +206,6 @@ func c06Monitor(tbl []c06Entry, host string, qt uint16, o c06Obs, viaCheckHost b
 	}
 	if !matched && (o.reason != 0 || o.canon != "" || len(o.ips) > 0) {
 		return false, "unmatched-rewritten", "a name not covered by the table was rewritten"
-	}
-	if cname && o.reason == 1 && o.canon == "" && len(o.ips) > 0 {
-		return false, "precedence", "address entries used although a CNAME entry covers the name"
 	}
 	if matched && !cname && !excQ && o.reason != 1 {
 		return false, "matched-not-rewritten", "name covered by the table (no CNAME, no exception for this type) was passed on"
@@ -249,6 +253,7 @@ func c06Prelude() []c06Table {
 		{label: "pre-most-specific", entries: E("*.test", "1.1.1.1", "*.b.a.test", "2.2.2.2", "*.a.test", "1.1.1.2", "*.a.test", "::1")},
 		{label: "pre-cycle-query", entries: E("a.test", "x.test", "x.test", "a.test")},
 		{label: "pre-cycle-off-query", entries: E("a.test", "x.test", "x.test", "y.x.test", "y.x.test", "x.test")},
+		{label: "pre-cycle-addr-beside-cname", entries: E("a.test", "x.test", "x.test", "y.x.test", "y.x.test", "x.test", "x.test", "1.1.1.1", "y.x.test", "::1")},
 		{label: "pre-cycle-3-wild", entries: E("test", "b.a.test", "*.a.test", "x.test", "x.test", "c.b.a.test", "*.b.a.test", "y.x.test", "*.x.test", "q.a.test")},
 		{label: "pre-wild-loop-4016", entries: E("*.a.test", "b.a.test")},
 		{label: "pre-wild-loop-4016-addr", entries: E("*.a.test", "b.a.test", "b.a.test", "1.1.1.1")},
